@@ -505,6 +505,8 @@ pub enum PayloadPlan {
     DropAtStart,
     /// read to the end (or error), then respond; payload dropped when the handler returns
     ReadAllThenRespond,
+    /// like ReadAllThenRespond but waits for an environment-released gate before every read
+    ReadAllSlowlyThenRespond,
     /// read one item, respond, drop the payload
     ReadFirstThenRespondDrop,
     /// read one item, respond, keep the payload alive until the response body is done
@@ -515,6 +517,11 @@ pub enum PayloadPlan {
     HoldForever,
     /// respond at once; the response body reads the whole request payload before its first chunk
     RespondThenReadAllInBody,
+    /// the payload is read to its end by a separate task (its own waker, a gate before every
+    /// read); the handler responds when that task has finished
+    ExternalReaderThenRespond,
+    /// as above, but the handler responds at once
+    RespondWithExternalReader,
 }
 
 #[derive(Clone, Debug, Serialize)]
